@@ -45,7 +45,7 @@ Chars == {"a", "Z", "7", "-", "_", ".", ":", "/", "!", " "}
 ProjectOK(cs) == \A i \in DOMAIN cs : cs[i] \in {"a", "Z", "7", "-", "_", ".", ":"}
 NameOK(cs) == \A i \in DOMAIN cs : cs[i] \in {"a", "Z", "7", "-", "_", "."}
 Strs == {<<>>, <<"a">>, <<"a", "Z", "7">>} \cup {<<"a", c>> : c \in Chars} \cup {<<c, "a">> : c \in {"/", ":", ".", "-", "!"}} \cup {<<"a", "/", ".", ".", "/", "a">>}
-QpsClasses == {"zero", "neg", "tiny", "nano", "small", "half", "one", "max", "over"}
+QpsClasses == {"zero", "neg", "tiny", "nano", "small", "half", "one", "max", "over", "nan", "edge", "denorm", "pinf", "ninf"}
 QpsOK(q) == q \in {"nano", "small", "half", "one", "max"}      \* 0 < qps <= 1000 and the probe interval is representable
 ProbeTypes == {"noop", "stale_read", "strong_query", "stale_query", "dml", "read_write", "", "NOOP", "noop "}
 TypeOK(t) == t \in {"noop", "stale_read", "strong_query", "stale_query", "dml", "read_write"}
